@@ -13,7 +13,7 @@
 (* being skipped changes no value (for members without look-behind whose   *)
 (* tokens cannot match ignorable text).                                    *)
 (***************************************************************************)
-EXTENDS Fam
+EXTENDS Fam, PegVM
 
 CONSTANTS Tier
 
@@ -119,4 +119,14 @@ LawLengthen ==
         IN \* only where the skip is already running: texts that start with the first token
            (t # <<>> /\ Head(t) # sp) =>
              (r1.t = r2.t /\ (r1.t = "ok" /\ r1.v[1] # "o" => r1.v = r2.v))
+
+(* ---- mechanism layer: the generated code's way of skipping (PegVM: skip_ignored on every literal, the rule ---- *)
+(* ---- _ignored = Skip(refs), the leading skip spliced into the start rule) computes the meaning           ---- *)
+VMG == [rules |-> [n \in {"start", "W", "Tok", "R"} |-> Rules(s)[n]], ign |-> IgnSets[ig], start |-> "start"]
+LawVMRefines ==
+    (done /\ s \notin {7, 14, 17}) =>
+    /\ GInVM(VMG)
+    /\ \A k \in 1..Len(Texts(s, ig)) :
+          /\ Refines(VMG, Ref("start"), Texts(s, ig)[k])
+          /\ Refines(VMG, Ref("R"), Texts(s, ig)[k])
 =============================================================================
